@@ -1,51 +1,93 @@
 import KinModel.Lemmas.C04Local3
 namespace KinModel.DocValidate
 
-/-- the values the examples give are among the values the code reads -/
-theorem examplesGivenOK_of_examplesOK (d : Doc) (h : examplesOK d = true) : examplesGivenOK d = true := by
-  unfold examplesOK examplesVals at h
-  unfold examplesGivenOK examplesValsGiven
-  generalize d.kidsAt "examples" = l at h ⊢
+/-- every example object under the node gives exactly one of `value` and `externalValue` -/
+def examplesWF (d : Doc) : Bool := (exampleEntries d).all exampleShapeOK
+
+/-- the hypothesis under which the code's reading of `examples` is the specification's: the example objects
+the code visits (none when examples validation is off or no schema is given) are well-formed. It is not an
+exclusion: in an accepted document, and in a conforming one, it holds at every node (C04Reach.lean). -/
+def examplesWFor (o : Opts) (d : Doc) : Bool :=
+  o.exDisabled || !d.attrs.flag "hasSchema" || !exampleKinds.contains d.kind || d.attrs.flag "hasExample" || examplesWF d
+
+/-- without an `examples` field there is no example object to read -/
+theorem examplesWF_of_noflag (d : Doc) (h : d.attrs.flag "hasExamples" = false) : examplesWF d = true := by
+  simp [examplesWF, exampleEntries, h]
+
+/-- on well-formed example objects the values the code reads are the values the examples give -/
+theorem examplesVals_eq_given (d : Doc) (h : examplesWF d = true) : examplesVals d = examplesValsGiven d := by
+  unfold examplesWF at h
+  unfold examplesVals examplesValsGiven
+  generalize exampleEntries d = l at h ⊢
   induction l with
   | nil => rfl
-  | cons r rs ih =>
-    simp only [List.map_cons, List.all_cons, Bool.and_eq_true] at h
-    simp only [List.flatMap_cons, List.all_append, Bool.and_eq_true]
-    refine ⟨?_, ih h.2⟩
+  | cons a as ih =>
+    simp only [List.all_cons, Bool.and_eq_true] at h
+    simp only [List.filterMap_cons]
+    rw [ih h.2]
     have h1 := h.1
-    cases hr : r.kidsAt "value" with
-    | nil => simp [hr]
-    | cons e es =>
-      simp only [hr] at h1
-      cases hv : e.attrs.vals.lookup "value" with
-      | none => simp [hr, hv]
-      | some v => simpa [hr, hv] using h1
+    unfold exampleShapeOK hasVal at h1
+    cases hv : a.vals.lookup "value" with
+    | none =>
+      have : (a.str "externalValue" != "") = true := by simpa [hv] using h1
+      simp [this]
+    | some v =>
+      have : (a.str "externalValue" != "") = false := by simpa [hv] using h1
+      simp [this]
+
+/-- the example rule of a parameter / media type / header under the options -/
+def exampleClause (o : Opts) (d : Doc) : Bool := (exampleOK d && examplesGivenOK d) || o.exDisabled
 
 theorem exampleValues_eq (T : Table) (o : Opts) (d : Doc)
-    (h1 : hasCheck T o d.kind "example" = !o.exDisabled) (h2 : hasCheck T o d.kind "examples" = !o.exDisabled)
-    (hex : exclExternalNode o d = false) (hk : d.kind = .parameter ∨ d.kind = .mediaType) (hs : d.attrs.flag "hasSchema" = true) :
-    exampleValuesOK T o d = (!(exampleOK d && examplesGivenOK d) |> fun b => (!b || !(!o.exDisabled))) := by
-  unfold exampleValuesOK
+    (h1 : hasCheck T o d.attrs d.kind "example" = !o.exDisabled)
+    (h2 : hasCheck T o d.attrs d.kind "examples" = (!o.exDisabled && !(d.kind == .parameter && d.attrs.flag "hasExample")))
+    (hboth : (d.attrs.flag "hasExample" && d.attrs.flag "hasExamples") = false)
+    (hwf : o.exDisabled = true ∨ d.attrs.flag "hasExample" = true ∨ examplesWF d = true) :
+    exampleValuesOK T o d = exampleClause o d := by
+  unfold exampleValuesOK exampleClause
   rw [h1, h2]
-  have himp := examplesGivenOK_of_examplesOK d
-  unfold exclExternalNode at hex
-  have hk' : (d.kind = .parameter || d.kind = .mediaType) = true := by
-    rcases hk with h | h <;> simp [h]
-  rw [hk', hs] at hex
-  revert himp hex
-  generalize exampleOK d = A
-  generalize examplesOK d = B
-  generalize examplesGivenOK d = C
-  cases A <;> cases B <;> cases C <;> cases o.exDisabled <;> simp
+  have hw : o.exDisabled = true ∨ examplesWF d = true := by
+    rcases hwf with h | h | h
+    · exact Or.inl h
+    · refine Or.inr (examplesWF_of_noflag d ?_)
+      simpa [h] using hboth
+    · exact Or.inr h
+  rcases hw with hd | hw
+  · simp [hd]
+  · have he : examplesOK d = examplesGivenOK d := by
+      unfold examplesOK examplesGivenOK
+      rw [examplesVals_eq_given d hw]
+    rw [he]
+    cases hx : d.attrs.flag "hasExample" with
+    | false => cases o.exDisabled <;> simp
+    | true =>
+      -- the `examples` check of a parameter is skipped: there is no `examples` field then
+      have hn : d.attrs.flag "hasExamples" = false := by simpa [hx] using hboth
+      have : examplesGivenOK d = true := by simp [examplesGivenOK, examplesValsGiven, exampleEntries, hn]
+      rw [this]
+      cases o.exDisabled <;> cases (d.kind == Kind.parameter) <;> simp
 
-theorem localOK_parameter (T : Table) (o : Opts) (a : Attrs) (kids : List (String × Doc)) (hT : TableOK T = true)
-    (hex : exclExternalNode o (.node .parameter a kids) = false) :
-    localOK T o (.node .parameter a kids) = rulesOK o (.node .parameter a kids) := by
+theorem exampleChecks (T : Table) (o : Opts) (a : Attrs) (k : Kind) (hT : TableOK T = true) (hk : k ∈ exampleKinds) :
+    hasCheck T o a k "example" = !o.exDisabled ∧
+    hasCheck T o a k "examples" = (!o.exDisabled && !(k == .parameter && a.flag "hasExample")) := by
+  have hf := (tableFacts T hT).ex k hk
+  exact ⟨anyHolds_as o a _ _ hf.1, anyHolds_as o a _ _ hf.2.1⟩
+
+theorem wf_split (o : Opts) (d : Doc) (hwf : examplesWFor o d = true) (hs : d.attrs.flag "hasSchema" = true)
+    (hk : exampleKinds.contains d.kind = true) :
+    o.exDisabled = true ∨ d.attrs.flag "hasExample" = true ∨ examplesWF d = true := by
+  unfold examplesWFor at hwf
+  simp only [hs, hk, Bool.not_true, Bool.or_false, Bool.or_eq_true] at hwf
+  rcases hwf with (h | h) | h
+  · exact Or.inl h
+  · exact Or.inr (Or.inl h)
+  · exact Or.inr (Or.inr h)
+
+theorem localOK_parameter (T : Table) (o : Opts) (a : Attrs) (kids : List (String × Doc)) (vs : List Bool)
+    (hT : TableOK T = true) (hwf : examplesWFor o (.node .parameter a kids) = true) :
+    localOK T o (.node .parameter a kids) vs = rulesOK o (.node .parameter a kids) := by
   have hx := checkExt_eq T o (.node .parameter a kids) hT (by simp [extKinds, Doc.kind])
-  have hf := tableFacts T hT
-  have h1 := hasCheck_single T o .parameter "example" _ hf.pExample
-  have h2 := hasCheck_single T o .parameter "examples" _ hf.pExamples
-  simp only [litHolds] at h1 h2
+  obtain ⟨h1, h2⟩ := exampleChecks T o a .parameter hT (by simp [exampleKinds])
   simp (disch := decide) only [localOK, rulesOK, violations, Doc.kind, Doc.attrs, parameterOKCode, exampleViols, List.all_append, all_when,
     extra_all, hx, enabled_plain]
   simp only [enabled]
@@ -65,12 +107,14 @@ theorem localOK_parameter (T : Table) (o : Opts) (a : Attrs) (kids : List (Strin
   cases hs : a.flag "hasSchema" with
   | false => simp [c1, c2, c3, c4, c5, c6]
   | true =>
-    have hv := exampleValues_eq T o (.node .parameter a kids) h1 h2 hex (Or.inl rfl) hs
-    simp only [Doc.attrs] at hv
-    rw [hv]
     by_cases c7 : (a.flag "hasExample" && a.flag "hasExamples") = true
     · have ⟨c7a, c7b⟩ : a.flag "hasExample" = true ∧ a.flag "hasExamples" = true := by simpa using c7
       simp [c1, c2, c3, c4, c5, c6, c7a, c7b]
+    have c7' : (a.flag "hasExample" && a.flag "hasExamples") = false := by simpa using c7
+    have hv := exampleValues_eq T o (.node .parameter a kids) h1 h2 c7'
+      (wf_split o _ hwf hs (by simp [exampleKinds, Doc.kind]))
+    simp only [Doc.attrs, exampleClause] at hv
+    rw [hv]
     simp [c1, c2, c3, c4, c5, c6, c7]
     generalize extKeysOK o a.exts = X
     generalize exampleOK _ = A
